@@ -22,6 +22,16 @@ Two layers.
    chain followed by Neg/Not so that taking the wrong branch is visible); ``loop`` (nodes live in a Loop
    body executed twice, capturing outer values, results are scan outputs); ``func`` (nodes live in a
    model-local function; every attribute of the last node is passed as an attribute reference).
+   COMPOSED / REPEATED WRAPPERS (``wrap`` grammar ``<outer>[_if][*2]``): ``func_if`` / ``loop_if`` / ``if_if`` put the
+   nodes in the taken branch of a constant-condition ``If`` (condition: Constant node next to it) that itself
+   sits in the function body / Loop body / taken branch of the outer If; a branch is a real graph, so ``init``
+   operands are initializers OWNED BY THE BRANCH even inside a function.  ``*2`` emits the wrapped instance twice
+   (two If / Loop nodes, two calls of F): the sibling subgraphs reuse the same inner value names (legal ONNX
+   scoping) and capture the same outer values; the second instance's results are extra graph outputs.
+
+   CONSTANT FORMS (``form`` of a const/outer operand): ``value`` (tensor attribute), ``attr`` (value_float(s) /
+   value_int(s) / value_string(s) when the tensor is f32 / i64 / str of rank <= 1, else ``value``), ``sparse``
+   (sparse_value, numeric rank >= 1, else ``value``).
 
 2. The op -> configs table ``CONFIGS`` (operand roles with value pools, primary-operand kinds) and the
    helpers that lower a *chain* of configs to a spec (``chain_spec``).  The optimizer-relevant alphabet is
@@ -39,10 +49,12 @@ from onnx import TensorProto as TP
 from onnx import helper as h
 from onnx import numpy_helper as nh
 
+import ml_dtypes  # noqa: E402  (bfloat16 numpy dtype; shipped with onnx)
+
 NP = {"f32": np.float32, "f16": np.float16, "f64": np.float64, "i64": np.int64, "i32": np.int32,
-      "u8": np.uint8, "i8": np.int8, "b": np.bool_}
+      "u8": np.uint8, "i8": np.int8, "b": np.bool_, "str": object, "bf16": ml_dtypes.bfloat16}
 OT = {"f32": TP.FLOAT, "f16": TP.FLOAT16, "f64": TP.DOUBLE, "i64": TP.INT64, "i32": TP.INT32,
-      "u8": TP.UINT8, "i8": TP.INT8, "b": TP.BOOL}
+      "u8": TP.UINT8, "i8": TP.INT8, "b": TP.BOOL, "str": TP.STRING, "bf16": TP.BFLOAT16}
 OT_INV = {v: k for k, v in OT.items()}
 INT64_MAX = 9223372036854775807
 LOCAL_DOMAIN = "vf.local"
@@ -68,6 +80,10 @@ def arr(ts):
     return np.asarray(ts["v"], dtype=NP[ts["t"]]).reshape(ts["s"])
 
 
+def s_(v):
+    return T("str", v)
+
+
 def tshow(ts):
     a = arr(ts)
     if a.size <= 8:
@@ -87,6 +103,7 @@ _FPAT = [
 ]
 _IPAT = [[-2, -1, 0, 1, 2, 3, 7, -5], [0], [1, -1], [40, -3, 4], [-3, -1, -7]]  # no huge ints: they size tensors
 _UPAT = [[0, 1, 2, 3, 250, 255, 7, 128], [0], [1, 255], [200, 3, 4], [5, 6, 7]]
+_SPAT = [["a", "b", "", "abc", "B", "a b", "0", "b"], [""], ["x", "y"], ["12", "-3", "4"], ["b", "a", "b"]]
 N_VALUATIONS = len(_FPAT)
 
 
@@ -94,6 +111,8 @@ def valuation(t, shape, k):
     n = int(np.prod(shape)) if len(shape) else 1
     if t == "b":
         base = [[True, False, False, True, True], [False], [True], [True, False], [False, False, True]][k % 5]
+    elif t == "str":
+        base = _SPAT[k % 5]
     elif t in ("u8",):
         base = _UPAT[k % 5]
     elif t.startswith("i"):
@@ -149,6 +168,8 @@ def _vi(name, t, shape):
 def _attr(name, v):
     if isinstance(v, dict) and "t" in v:
         return h.make_attribute(name, nh.from_array(arr(v)))
+    if isinstance(v, dict) and "tp" in v:   # TYPE_PROTO attribute: {"tp": [dtype, shape]}
+        return h.make_attribute(name, h.make_tensor_type_proto(OT[v["tp"][0]], v["tp"][1]))
     if isinstance(v, list) and not v:
         return h.make_attribute(name, v, attr_type=onnx.AttributeProto.INTS)
     return h.make_attribute(name, v)
@@ -163,27 +184,75 @@ def _ref_attr(name, v):
     return r
 
 
+def const_form_applies(ts, form):
+    """Does the Constant attribute form ``form`` denote something else than the plain tensor form for tensor ts?"""
+    if form == "attr":
+        return ts["t"] in ("f32", "i64", "str") and len(ts["s"]) <= 1
+    if form == "sparse":
+        return ts["t"] not in ("str", "b", "bf16") and len(ts["s"]) >= 1 and all(d > 0 for d in ts["s"])
+    return form == "value"
+
+
+def const_node(name, a, t, form="value"):
+    """Constant node producing array ``a`` (dtype key t) written in the given attribute form."""
+    A = onnx.AttributeProto
+    if form == "attr" and t in ("f32", "i64", "str") and a.ndim <= 1:
+        n = h.make_node("Constant", [], [name])
+        if t == "f32":
+            at = h.make_attribute("value_float", float(a)) if a.ndim == 0 else \
+                h.make_attribute("value_floats", [float(x) for x in a], attr_type=A.FLOATS)
+        elif t == "i64":
+            at = h.make_attribute("value_int", int(a)) if a.ndim == 0 else \
+                h.make_attribute("value_ints", [int(x) for x in a], attr_type=A.INTS)
+        else:
+            at = h.make_attribute("value_string", str(a.item())) if a.ndim == 0 else \
+                h.make_attribute("value_strings", [str(x) for x in a], attr_type=A.STRINGS)
+        n.attribute.append(at)
+        return n
+    if form == "sparse" and t not in ("str", "b", "bf16") and a.ndim >= 1 and a.size:
+        flat = a.ravel()
+        nz = np.flatnonzero(flat != 0)
+        sp = h.make_sparse_tensor(nh.from_array(flat[nz], name + "_values"), nh.from_array(nz.astype(np.int64), name + "_idx"),
+                                  list(a.shape))
+        return h.make_node("Constant", [], [name], sparse_value=sp)
+    return h.make_node("Constant", [], [name], value=nh.from_array(a, name))
+
+
+def parse_wrap(wrap):
+    """'func_if*2' -> ('func', True, 2)"""
+    base, _, rep = wrap.partition("*")
+    inner_if = False
+    if base.endswith("_if") and base != "_if":
+        base, inner_if = base[:-3], True
+        if base == "if":
+            base = "if_then"
+    return base, inner_if, int(rep or 1)
+
+
 def build(spec, check=True):
     """-> Built.  ``Built.problem`` is set (and model may be None) when the spec does not denote a valid model."""
     B = Built()
     opset = spec.get("opset", 18)
-    wrap = spec.get("wrap", "none")
+    wrap_full = spec.get("wrap", "none")
+    wrap, inner_if, reps = parse_wrap(wrap_full)
     wsrc = spec.get("wsrc", "const")
     main = _G()
     for (n, t, s) in spec["ins"]:
         main.inputs.append(_vi(n, t, s))
         B.true_inputs.append((n, t, s))
     nodes = spec["nodes"]
-    counter = itertools.count()
+    ref_node = spec.get("ref_node", len(nodes) - 1)   # func wrapper: the node whose attributes become attribute references
     captured = []  # names from the main scope used inside a function body, in order of first use
+    main_defined = set()  # main-scope constants already emitted (a repeated instance captures the same ones)
 
     def cap(name):
         if name not in captured:
             captured.append(name)
         return name
 
-    def emit(G, prefix, force_const):
-        """Append the spec's nodes to G.  -> list of output names of the spec's outs."""
+    def emit(G, prefix, force_const, counter, is_graph):
+        """Append the spec's nodes to G.  -> list of output names of the spec's outs.
+        is_graph: G is a real graph (main / branch / loop body) that may own initializers; False: a function body."""
         for idx, nd in enumerate(nodes):
             ins = []
             for r in nd["i"]:
@@ -195,129 +264,195 @@ def build(spec, check=True):
                     ins.append(f"{prefix}v{r['n']}_{r.get('k', 0)}")
                 else:
                     src = "const" if force_const else r.get("src", "const")
+                    form = "value" if force_const else r.get("form", "value")
                     a = arr(r["c"])
+                    t = r["c"]["t"]
                     name = f"{prefix}k{next(counter)}"
-                    if src == "init" and wrap == "func":
+                    if src == "init" and not is_graph:
                         src = "init_main"
                     if src == "const":
-                        G.nodes.append(h.make_node("Constant", [], [name], value=nh.from_array(a, name)))
+                        G.nodes.append(const_node(name, a, t, form))
                     elif src == "init":
                         G.inits.append(nh.from_array(a, name))
+                    elif name in main_defined:
+                        pass  # second instance: same main-scope value
                     elif src == "init_main":
                         main.inits.append(nh.from_array(a, name))
-                        cap(name)
                     elif src == "init_in":
                         main.inits.append(nh.from_array(a, name))
-                        main.inputs.append(_vi(name, r["c"]["t"], list(a.shape)))
+                        main.inputs.append(_vi(name, t, list(a.shape)))
                         B.init_in[name] = a
                         B.overrides[name] = [arr(o) for o in r.get("ov", [])]
-                        if wrap == "func":
-                            cap(name)
                     elif src == "input":
-                        main.inputs.append(_vi(name, r["c"]["t"], list(a.shape)))
+                        main.inputs.append(_vi(name, t, list(a.shape)))
                         B.fixed[name] = a
-                        if wrap == "func":
-                            cap(name)
                     elif src == "outer":
-                        main.nodes.append(h.make_node("Constant", [], [name], value=nh.from_array(a, name)))
-                        if wrap == "func":
-                            cap(name)
+                        main.nodes.append(const_node(name, a, t, form))
                     else:
                         raise ValueError(src)
+                    if src in ("init_main", "init_in", "input", "outer"):
+                        main_defined.add(name)
+                        if wrap == "func":
+                            cap(name)
                     ins.append(name)
             while ins and ins[-1] == "":
                 ins.pop()
             outs = [f"{prefix}v{idx}_{k}" for k in range(nd.get("no", 1))]
             n = h.make_node(nd["op"], ins, outs, name=f"{prefix}n{idx}", domain=nd.get("dom", ""))
-            use_ref = wrap == "func" and idx == len(nodes) - 1 and not force_const
+            use_ref = wrap == "func" and not inner_if and idx == ref_node and not force_const
             for an, av in (nd.get("a") or {}).items():
                 n.attribute.append(_ref_attr(an, av) if use_ref else _attr(an, av))
             G.nodes.append(n)
         return [f"{prefix}v{r['n']}_{r.get('k', 0)}" for r in spec["outs"]]
 
-    extra_imports = []
-    functions = []
-    if wrap == "none":
-        onames = emit(main, "", False)
-        outs = [onnx.ValueInfoProto(name=o) for o in onames]
-    elif wrap in ("if_then", "if_else"):
-        taken, other = _G(), _G()
-        t_out = emit(taken, "", False)
-        o_mid = emit(other, "e_", True)
-        o_out = []
-        # the other branch perturbs every output (Neg / Not / BitwiseNot) so that a wrong branch is visible;
-        # output element types come from a plain (unwrapped) build of the same nodes
-        plain = dict(spec)
-        plain["wrap"] = "none"
-        pb = build(plain, check=False)
+    _plain = []
+
+    def plain_output_types():
+        """Output types of the unwrapped nodes (the untaken branch perturbs every output according to its type)."""
+        if not _plain:
+            plain = dict(spec)
+            plain["wrap"] = "none"
+            _plain.append(build(plain, check=False))
+        return _plain[0]
+
+    def perturb(G, names, prefix):
+        """Append Neg / Not / BitwiseNot (per output type) after every name; -> new names, or None (B.problem set)."""
+        pb = plain_output_types()
         if pb.problem:
             B.problem = pb.problem
-            return B
-        for j, o in enumerate(o_mid):
-            nm = f"e_o{j}"
+            return None
+        out = []
+        for j, o in enumerate(names):
+            nm = f"{prefix}o{j}"
             ot = pb.model.graph.output[j].type
             if ot.WhichOneof("value") != "tensor_type":
                 pop = "Identity"
             else:
                 et = ot.tensor_type.elem_type
-                pop = "Not" if et == TP.BOOL else "BitwiseNot" if et in (TP.UINT8, TP.UINT16, TP.UINT32, TP.UINT64) else "Neg"
-            other.nodes.append(h.make_node(pop, [o], [nm], name=f"e_p{j}"))
-            o_out.append(nm)
+                pop = "Not" if et == TP.BOOL else "BitwiseNot" if et in (TP.UINT8, TP.UINT16, TP.UINT32, TP.UINT64) \
+                    else "Identity" if et == TP.STRING else "Neg"
+            G.nodes.append(h.make_node(pop, [o], [nm], name=f"{prefix}p{j}"))
+            out.append(nm)
+        return out
+
+    def emit_if(G, prefix, counter, cname, then_taken, oprefix):
+        """If node in G whose taken branch holds the spec's nodes; -> output names, or None (B.problem set).
+        The other branch computes the same chain (constants only) followed by Neg / Not / BitwiseNot so that taking
+        the wrong branch is visible."""
+        taken, other = _G(), _G()
+        t_out = emit(taken, prefix, False, counter, True)
+        o_mid = emit(other, prefix + "e_", True, counter, True)
+        o_out = perturb(other, o_mid, prefix + "e_")
+        if o_out is None:
+            return None
+
+        def mk_branch(Gb, name, onames):
+            return h.make_graph(Gb.nodes, name, [], [onnx.ValueInfoProto(name=o) for o in onames], initializer=Gb.inits)
+        tg, og = mk_branch(taken, "taken", t_out), mk_branch(other, "other", o_out)
+        kw = dict(then_branch=tg, else_branch=og) if then_taken else dict(then_branch=og, else_branch=tg)
+        onames = [f"{oprefix}{j}" for j in range(len(t_out))]
+        G.nodes.append(h.make_node("If", [cname], onames, name="wrap_if" if oprefix == "o" else f"{oprefix}_if", **kw))
+        return onames
+
+    def emit_body(G, counter, is_graph, oprefix):
+        """The spec's nodes, directly or inside a constant-condition If (``inner_if``), appended to G."""
+        if not inner_if:
+            return emit(G, "", False, counter, is_graph)
+        cname = f"{oprefix}icond"
+        G.nodes.append(const_node(cname, np.array(True), "b"))
+        return emit_if(G, "", counter, cname, True, f"{oprefix}i")
+
+    extra_imports = []
+    functions = []
+    onames = []
+    if wrap == "none":
+        onames = emit(main, "", False, itertools.count(), True)
+    elif wrap in ("if_then", "if_else"):
         cval = np.array(wrap == "if_then")
         cname = "cond"
-        if wsrc == "const":
-            main.nodes.append(h.make_node("Constant", [], [cname], value=nh.from_array(cval, cname)))
-        elif wsrc == "init":
-            main.inits.append(nh.from_array(cval, cname))
-        elif wsrc == "init_in":
-            main.inits.append(nh.from_array(cval, cname))
-            main.inputs.append(_vi(cname, "b", []))
-            B.init_in[cname] = cval
-            B.overrides[cname] = [np.array(not bool(cval))]
-        elif wsrc == "input":
-            main.inputs.append(_vi(cname, "b", []))
-            B.fixed[cname] = cval
-            B.cond_name = cname
-        else:
-            raise ValueError(wsrc)
 
-        def mk_branch(G, name, onames):
-            return h.make_graph(G.nodes, name, [], [onnx.ValueInfoProto(name=o) for o in onames],
-                                initializer=G.inits)
-        tg, og = mk_branch(taken, "taken", t_out), mk_branch(other, "other", o_out)
-        kw = dict(then_branch=tg, else_branch=og) if wrap == "if_then" else dict(then_branch=og, else_branch=tg)
-        onames = [f"o{j}" for j in range(len(t_out))]
-        main.nodes.append(h.make_node("If", [cname], onames, name="wrap_if", **kw))
-        outs = [onnx.ValueInfoProto(name=o) for o in onames]
+        def add_cond():
+            # (emitted after the first instance's operands: keeps the node / input order of the one-instance form)
+            if wsrc == "const":
+                main.nodes.insert(len(main.nodes) - 1, h.make_node("Constant", [], [cname], value=nh.from_array(cval, cname)))
+            elif wsrc == "init":
+                main.inits.append(nh.from_array(cval, cname))
+            elif wsrc == "init_in":
+                main.inits.append(nh.from_array(cval, cname))
+                main.inputs.append(_vi(cname, "b", []))
+                B.init_in[cname] = cval
+                B.overrides[cname] = [np.array(not bool(cval))]
+            elif wsrc == "input":
+                main.inputs.append(_vi(cname, "b", []))
+                B.fixed[cname] = cval
+                B.cond_name = cname
+            else:
+                raise ValueError(wsrc)
+        for rep in range(reps):
+            op_ = "o" if rep == 0 else f"r{rep}o"
+            if not inner_if:
+                got = emit_if(main, "", itertools.count(), cname, wrap == "if_then", op_)
+            else:
+                # outer If (condition per wsrc) whose taken branch holds the constant-condition inner If
+                taken, other = _G(), _G()
+                t_out = emit_body(taken, itertools.count(), True, "w")
+                if t_out is None:
+                    return B
+                o_out = perturb(other, emit(other, "f_", True, itertools.count(), True), "f_")
+                if o_out is None:
+                    return B
+                tg = h.make_graph(taken.nodes, "outer_taken", [], [onnx.ValueInfoProto(name=o) for o in t_out],
+                                  initializer=taken.inits)
+                og = h.make_graph(other.nodes, "outer_other", [], [onnx.ValueInfoProto(name=o) for o in o_out],
+                                  initializer=other.inits)
+                kw = dict(then_branch=tg, else_branch=og) if wrap == "if_then" else dict(then_branch=og, else_branch=tg)
+                got = [f"{op_}{j}" for j in range(len(t_out))]
+                main.nodes.append(h.make_node("If", [cname], got, name="wrap_if" if rep == 0 else f"{op_}_if", **kw))
+            if got is None:
+                return B
+            if rep == 0:
+                add_cond()
+            onames += got
     elif wrap == "loop":
-        body = _G()
-        b_out = emit(body, "", False)
-        body.nodes.append(h.make_node("Identity", ["cond_in"], ["cond_out"], name="keep_going"))
-        bg = h.make_graph(body.nodes, "body", [_vi("iter", "i64", []), _vi("cond_in", "b", [])],
-                          [_vi("cond_out", "b", [])] + [onnx.ValueInfoProto(name=o) for o in b_out],
-                          initializer=body.inits)
-        main.inits.append(nh.from_array(np.array(2, dtype=np.int64), "loop_M"))
-        main.inits.append(nh.from_array(np.array(True), "loop_c"))
-        onames = [f"o{j}" for j in range(len(b_out))]
-        main.nodes.append(h.make_node("Loop", ["loop_M", "loop_c"], onames, name="wrap_loop", body=bg))
-        outs = [onnx.ValueInfoProto(name=o) for o in onames]
+        for rep in range(reps):
+            op_ = "o" if rep == 0 else f"r{rep}o"
+            body = _G()
+            b_out = emit_body(body, itertools.count(), True, "w")
+            if b_out is None:
+                return B
+            body.nodes.append(h.make_node("Identity", ["cond_in"], ["cond_out"], name="keep_going"))
+            bg = h.make_graph(body.nodes, "body", [_vi("iter", "i64", []), _vi("cond_in", "b", [])],
+                              [_vi("cond_out", "b", [])] + [onnx.ValueInfoProto(name=o) for o in b_out],
+                              initializer=body.inits)
+            got = [f"{op_}{j}" for j in range(len(b_out))]
+            if rep == 0:
+                main.inits.append(nh.from_array(np.array(2, dtype=np.int64), "loop_M"))
+                main.inits.append(nh.from_array(np.array(True), "loop_c"))
+            main.nodes.append(h.make_node("Loop", ["loop_M", "loop_c"], got, name="wrap_loop" if rep == 0 else f"{op_}_loop", body=bg))
+            onames += got
     elif wrap == "func":
         body = _G()
-        f_out = emit(body, "", False)
-        last = nodes[-1]
-        attr_names = list((last.get("a") or {}).keys())
+        f_out = emit_body(body, itertools.count(), False, "w")
+        if f_out is None:
+            return B
+        last = nodes[ref_node]
+        attr_names = [] if inner_if else list((last.get("a") or {}).keys())
         fn = h.make_function(LOCAL_DOMAIN, "F", list(captured), f_out, body.nodes,
                              opset_imports=[h.make_opsetid("", opset)], attributes=attr_names)
         functions.append(fn)
-        onames = [f"o{j}" for j in range(len(f_out))]
-        call = h.make_node("F", list(captured), onames, name="wrap_call", domain=LOCAL_DOMAIN)
-        for an, av in (last.get("a") or {}).items():
-            call.attribute.append(_attr(an, av))
-        main.nodes.append(call)
+        for rep in range(reps):
+            op_ = "o" if rep == 0 else f"r{rep}o"
+            got = [f"{op_}{j}" for j in range(len(f_out))]
+            call = h.make_node("F", list(captured), got, name="wrap_call" if rep == 0 else f"{op_}_call", domain=LOCAL_DOMAIN)
+            if not inner_if:
+                for an, av in (last.get("a") or {}).items():
+                    call.attribute.append(_attr(an, av))
+            main.nodes.append(call)
+            onames += got
         extra_imports.append(h.make_opsetid(LOCAL_DOMAIN, 1))
-        outs = [onnx.ValueInfoProto(name=o) for o in onames]
     else:
         raise ValueError(wrap)
+    outs = [onnx.ValueInfoProto(name=o) for o in onames]
 
     def assemble():
         g = h.make_graph(main.nodes, "g", main.inputs, outs, initializer=main.inits)
@@ -395,7 +530,8 @@ class Cfg:
     """One way of using an op: attributes + operand roles.
 
     kin:   tuple of primary-operand kinds accepted (F1..F4 float rank, I2 int64 rank 2, B2 bool, S1 int64 vector,
-           S0 int64 scalar, Q sequence of float tensors, U4 uint8 NCHW, H2 float16 rank 2, J1 int32 vector)
+           S0 int64 scalar, Q sequence of float tensors, U4 uint8 NCHW, H2 float16 rank 2, J1 int32 vector,
+           T1 string vector, G2 bfloat16 rank 2 (constants only), O optional tensor)
     kout:  kind of output 0 ("=" same as input, "+1"/"-1" rank change, or a kind)
     ops:   list of operands in input order; the string "P" marks the primary operand, None an omitted
            optional input, {"x": name} another graph input, otherwise a pool (list of tensor specs; entry 0 default)
@@ -697,6 +833,41 @@ def _table():
     _add("PRelu", "xc", ("F2",), "=", ["P", [f(0.25), f([0.1, 0.2, 0.3])]], roles=["slope"])
     _add("Tile", "f2", ("F2",), "=", ["P", [i([1, 1]), i([2, 1]), i([0, 1])]], roles=["repeats"])
     _add("OneHot", "s", ("S1",), "F2", ["P", [i(4)], [f([0.0, 1.0])]], roles=["depth", "values"])
+    # --- type-generic consumer that keeps a (folded) value alive as an INTERMEDIATE value: Where(runtime cond, v, v) -------
+    _add("Where", "rpp", F_KINDS + ("I2", "B2", "S1", "S0", "H2", "J1", "U4", "T1"), "=",
+         [{"x": "xc"}, "P", "P"], xs=[("xc", "b", [])])
+    # --- string tensors (kind T1: string vector) ---------------------------------------------------------------------
+    # (appended after the numeric table so that representative / per-op selections of the numeric alphabet are unchanged)
+    TS = [s_(["c"]), s_(["d", "e"]), T("str", np.zeros((0,), dtype=object)), s_([""]), s_(["a", "b", "c"])]
+    _add("Identity", "t", ("T1",), "=", ["P"])
+    _add("Concat", "t.xc", ("T1",), "=", ["P", TS], roles=["other"], attrs={"axis": 0})
+    _add("Concat", "t.cx", ("T1",), "=", [TS, "P"], roles=["other"], attrs={"axis": 0})
+    _add("Concat", "t.xx", ("T1",), "=", ["P", "P"], attrs={"axis": 0})
+    _add("Gather", "t.xi", ("T1",), "=", ["P", [i([0]), i(1), i([-1]), i([1, 0])]], roles=["indices"])
+    _add("Reshape", "t.xs", ("T1",), "T2", ["P", [i([3, 1]), i([-1]), i([1, 3])]], roles=["shape"])
+    _add("Unsqueeze", "t.xa", ("T1",), "T2", ["P", [i([0]), i([1])]], roles=["axes"])
+    _add("Expand", "t.xs", ("T1",), "T2", ["P", [i([2, 3]), i([3]), i([1])]], roles=["shape"])
+    _add("Slice", "t.se", ("T1",), "=", ["P", [i([0]), i([1])], [i([2]), i([INT64_MAX])]], roles=["starts", "ends"])
+    _add("Tile", "t.xs", ("T1",), "=", ["P", [i([2]), i([1])]], roles=["repeats"])
+    _add("Shape", "t", ("T1",), "S1", ["P"])
+    _add("Size", "t", ("T1",), "S0", ["P"])
+    _add("Where", "t.cxy", ("T1",), "=", [[T("b", [True, False, True]), T("b", True)], "P", [s_(["x", "y", "z"]), s_("q")]],
+         roles=["cond", "else"])
+    _add("Equal", "t.xc", ("T1",), "B1", ["P", [s_(["a", "b", "c"]), s_("a")]], roles=["other"], opsets=(19,))
+    _add("StringNormalizer", "t.up", ("T1",), "=", ["P"], attrs={"case_change_action": "UPPER"})
+    _add("Cast", "t.i64", ("T1",), "S1", ["P"], attrs={"to": TP.INT64})
+    _add("Cast", "s.str", ("S1",), "T1", ["P"], attrs={"to": TP.STRING})
+    # --- bfloat16 constants (kind G2; the runtimes cannot feed / fetch bfloat16 through numpy: constants only) -----------
+    _add("Cast", "g.f32", ("G2",), "F2", ["P"], attrs={"to": TP.FLOAT})
+    _add("CastLike", "g.xc", ("G2",), "F2", ["P", [f(0.0)]], roles=["like"])
+    # --- optional-typed values (kind O) --------------------------------------------------------------------------------------
+    _add("Optional", "x", ("F2",), "O", ["P"])
+    _add("Optional", "none", ("F2",), "O", [], attrs={"type": {"tp": ["f32", [2, 3]]}})
+    _add("OptionalHasElement", "o", ("O",), "B0", ["P"])
+    _add("OptionalGetElement", "o", ("O",), "F2", ["P"])
+    _add("Identity", "o", ("O",), "O", ["P"])
+    _add("OptionalHasElement", "x", ("F2", "I2"), "B0", ["P"])
+    _add("OptionalGetElement", "x", ("F2",), "=", ["P"])
 
 
 _table()
@@ -717,10 +888,15 @@ X_SHAPES = {
     "S1": [("2", "i64", [2]), ("1", "i64", [1]), ("N", "i64", ["N"])],
     "S0": [("", "i64", [])],
     "J1": [("2", "i32", [2])],
+    "T1": [("3", "str", [3]), ("N", "str", ["N"]), ("1", "str", [1])],
+    "G2": [("2x3", "bf16", [2, 3])],
 }
+PRODUCED_KINDS = ("Q", "O")   # kinds that only exist as the output of a producer node (sequence, optional)
 X_SRCS = ["in", "init", "const", "init_in"]   # how the primary value enters the model
 C_SRCS = ["const", "init", "init_in", "input", "outer"]
 WRAPS = ["none", "if_then", "if_else", "loop", "func"]
+WRAPS_EXT = ["if_then*2", "loop*2", "func*2", "func_if", "func_if*2", "loop_if", "if_if"]   # composed / repeated
+C_FORMS = ["value", "attr", "sparse"]
 BIND_DEFAULT = {"N": 2, "M": 3, "H": 4, "W": 4, "?": 2}
 
 
@@ -728,13 +904,16 @@ def x_concrete(shape):
     return concrete_shape(shape, BIND_DEFAULT)
 
 
-def chain_spec(steps, xsel=("F2", 0), xsrc="in", wrap="none", wsrc="const", opset=18, outs="last", keep_vi=False):
+def chain_spec(steps, xsel=("F2", 0), xsrc="in", wrap="none", wsrc="const", opset=18, outs="last", keep_vi=False,
+               cform="value", ref_step=None):
     """Lower a chain to a build() spec.
 
     steps: list of {"cfg": id, "ops": [[value index, src], ...] one per pooled operand, "ov": bool}
     The primary operand of step 0 is the model's primary value ``x`` (kind/shape ``xsel``, source ``xsrc``);
     the primary operand of step j>0 is output 0 of step j-1.
-    outs: "last" (all outputs of the last node) or "all" (every node's outputs).
+    outs: "last" (all outputs of the last node), "all" (every node's outputs) or "dup" (the last node's outputs and
+          output 0 once more: two graph outputs aliasing one value).
+    cform: Constant attribute form of every operand whose source is a Constant node (const / outer), see const_node.
     """
     kind, xi = xsel
     label, t, shape = X_SHAPES[kind][xi]
@@ -747,6 +926,8 @@ def chain_spec(steps, xsel=("F2", 0), xsrc="in", wrap="none", wsrc="const", opse
         cs = x_concrete(shape)
         val = T(t, valuation(t, cs, 0))
         prim = {"c": val, "src": xsrc}
+        if cform != "value":
+            prim["form"] = cform
         if xsrc == "init_in":
             prim["ov"] = [T(t, valuation(t, cs, 2)), T(t, valuation(t, cs, 4))]
     for j, st in enumerate(steps):
@@ -766,6 +947,8 @@ def chain_spec(steps, xsel=("F2", 0), xsrc="in", wrap="none", wsrc="const", opse
                 vi, src = sel[pj] if pj < len(sel) else (0, "const")
                 pj += 1
                 r = {"c": o[vi], "src": src}
+                if cform != "value":
+                    r["form"] = cform
                 if src == "init_in":
                     r["ov"] = override_values(o, vi)
                 refs.append(r)
@@ -775,9 +958,13 @@ def chain_spec(steps, xsel=("F2", 0), xsrc="in", wrap="none", wsrc="const", opse
                 ins.append(list(extra))
     if outs == "last":
         orefs = [{"n": len(nodes) - 1, "k": k} for k in range(nodes[-1]["no"])]
+    elif outs == "dup":
+        orefs = [{"n": len(nodes) - 1, "k": k} for k in range(nodes[-1]["no"])] + [{"n": len(nodes) - 1, "k": 0}]
     else:
         orefs = [{"n": j, "k": k} for j, nd in enumerate(nodes) for k in range(nd["no"])]
     spec = {"ins": ins, "nodes": nodes, "outs": orefs, "wrap": wrap, "wsrc": wsrc, "opset": opset}
+    if ref_step is not None:
+        spec["ref_node"] = ref_step
     if keep_vi:
         spec["keep_value_info"] = True
     return spec
@@ -792,6 +979,8 @@ def override_values(pool, vi, n=2):
     if len(out) < n and a.size:
         if d["t"] == "b":
             cand = [~a]
+        elif d["t"] == "str":
+            cand = [a + "x", a + "yz"]
         else:
             cand = [a + np.asarray(1, a.dtype), (a * np.asarray(2, a.dtype)) + np.asarray(1, a.dtype)]
         for c2 in cand:
